@@ -45,6 +45,9 @@ OldLine ==   \* removed or unchanged line: counts against the announced old-side
 NewLine ==
   /\ gs.ph = "body" /\ gs.nh >= 1 /\ gs.new < MaxNew
   /\ \E c \in {"plus"} \cup (Ambig \cap {"plus3"}) : Emit(L(c, 0, 0, ""), [gs EXCEPT !.new = @ + 1, !.any = TRUE])
-GNext == Title \/ MinusHeader \/ PlusHeader \/ HunkHeader \/ OldLine \/ NewLine
+OnlyIn ==      \* diff -r: "Only in <dir>: <name>", a one-line section between the compared files
+  /\ Titled /\ FileDone(gs) /\ ~gs.titled
+  /\ \E f \in 1..NF : Emit(L("onlyin", f, f, "onlyin"), [gs EXCEPT !.ph = "start", !.nh = 0])
+GNext == OnlyIn \/ Title \/ MinusHeader \/ PlusHeader \/ HunkHeader \/ OldLine \/ NewLine
 Complete(s) == FileDone(s)
 =============================================================================
